@@ -218,6 +218,18 @@ def handle (op : String) (a : Json) : Except String Json := do
       else "one-root"
     return ok (Json.mkObj [("res", Json.str res), ("fs_track", fsJ r.track), ("fs_corpus", fsJ r.corpus), ("resolved", Json.str resolved)])
       [bres, "resolved:" ++ resolved, "res:" ++ res]
+  | "used_docsets" =>
+    let docs ← (← getArr a "docs").mapM (fun j => do
+      return (⟨← getNat j "id", ← getNat j "corpus", ← getOptNat j "index", ← getOptNat j "stream", ← getBool j "bulk"⟩ : DocSet))
+    let tasks ← (← getArr a "tasks").mapM (fun j => do
+      let cs ← match j.getObjVal? "corpora" with
+        | .ok Json.null => pure none
+        | .error _ => pure none
+        | .ok v => (natList v).map some
+      return (⟨← getBool j "has_corpora", cs, ← natList (← j.getObjVal? "indices"), ← natList (← j.getObjVal? "streams")⟩ : TaskSel))
+    match usedDocsets docs tasks with
+    | none => return err "RallyAssertionError" ["used:error"]
+    | some u => return ok (arr (u.map (fun d => toJson d.id))) [if u.isEmpty then "used:none" else if u.length == docs.length then "used:all" else "used:some"]
   | "net_download" =>
     let fs ← getFS (← a.getObjVal? "fs")
     let plan ← (← getArr a "plan").mapM getAttempt
